@@ -13,6 +13,12 @@ namespace AiutiVerif.Buffer
 
 def noShutdown (ins : List In) : Prop := ∀ i ∈ ins, i.isShutdown = false
 
+/-! Inputs include the two halves of a **foreign thread's** submission, `fclear` (the other thread
+clears the completion flag, at any instant) and `fput` (its producer is put on the queue by a loop
+callback, later): every theorem below holds for programs containing them.  This is true of the
+code only since fix `30ffe8c` (finding F10): before it the daemon ended its round by *reading the
+shared flag*, which a foreign `clear` could falsify right after a successful call. -/
+
 /-! ## C03 — nothing is lost, nothing is invented -/
 
 /-- **Conservation.** Every element a submitted producer yields before it ends or fails is, at
@@ -141,6 +147,15 @@ example : serial [.start 0 [1], .start 1 [2]] = none := by decide
 example : serial [.start 0 [1], .fin 3 true, .waitRet 7 3, .start 9 [2]] = some true := by decide
 
 /-! ## Non-vacuity -/
+
+/-- a foreign thread clears the flag at the very instant the first call ends (tick 1024), its
+producer arrives a little later: nothing is delivered twice, the waits cover what they must -/
+def demoForeign : List In :=
+  [.submit 0 [(0, some 0)], .fclear 1024, .fput 1030 [(0, some 9)], .wait 1040 5 false]
+example : noShutdown demoForeign := by
+  intro i hi; simp [demoForeign] at hi; rcases hi with rfl | rfl | rfl | rfl <;> rfl
+example : (runProgram { T := 1024, outcomes := [] } demoForeign).outs =
+    [.start 1024 [0], .fin 1024 true, .start 2054 [9], .fin 2054 true, .waitRet 5 2054] := by decide +kernel
 
 def demoSt : St := { T := 1024, outcomes := [(512, false), (0, true)] }
 def demoIns : List In :=
